@@ -896,6 +896,17 @@ fn exec_op(op: &Op, w: &mut World, enumerate: bool, stats: &mut Stats, log: &mut
                 if let Some(v) = judge(e.ty, e.codec, e.payload_kind, &got, expect, &what, stats) {
                     return Some(v);
                 }
+                // a failed read is retried at once (what callers do): the second attempt is
+                // judged like the first
+                if matches!(got, Decoded::Err) {
+                    let mut rd2 = DiskReader::new(slice, ReadFault::NONE);
+                    let again = codec::decode(e.ty, e.codec, &mut rd2);
+                    stats.decodes += 1;
+                    let what_retry = format!("record #{} = {} (second attempt right after a failed first one)", i, show_bytes(slice));
+                    if let Some(v) = judge(e.ty, e.codec, "retry", &again, None, &what_retry, stats) {
+                        return Some(v);
+                    }
+                }
                 // the same bytes handed to the decoder of every OTHER type, right after:
                 // may fail or give an in-range value, never an out-of-range one
                 for other in ALL_TYPES {
@@ -1033,9 +1044,31 @@ fn simulate_run(seed: u64, run: u64, fault_free: bool, stats: &mut Stats) -> (Sc
             } else if use_foreign && rng.chance(1, 4) {
                 if rng.bool() {
                     step!(Op::ForeignBin { ty, raw: draw_foreign_raw(&mut rng, ty) });
-                } else {
+                } else if rng.bool() {
                     let texts = foreign_texts(ty);
                     step!(Op::ForeignText { ty, text: rng.pick(&texts).to_string() });
+                } else {
+                    // the notation of another producer (ISO 8601 / RFC 3339 and friends) for a value
+                    // at or near a range end or anywhere
+                    let raw = match rng.below(3) {
+                        0 => *rng.pick(&[ty.lo(), ty.hi(), ty.lo() + 1, ty.hi() - 1]),
+                        _ => draw_value(&mut rng, ty),
+                    };
+                    let mut b: Vec<u8> = Vec::new();
+                    let _ = codec::encode(ty, raw, Codec::Json, &mut b);
+                    let own = String::from_utf8_lossy(&b).trim_matches('"').to_string();
+                    let zone = *rng.pick(&["Z", "+00:00", "+01:00", "-05:00", "+14:00", "-12:00", "+05:45", "+0100", " UTC", "z", "-00:01", "+23:59"]);
+                    let text = match rng.below(8) {
+                        0 => format!("{}{}", own.replacen(' ', "T", 1), zone),
+                        1 => own.replacen(' ', "T", 1),
+                        2 => format!("{}{}", own, zone),
+                        3 => own.replace('-', "/"),
+                        4 => own.replace(['-', ':', ' ', '.'], ""),
+                        5 => own.replace('.', ","),
+                        6 => format!("{} {}", own, *rng.pick(&["AM", "PM", "BC", "AD"])),
+                        _ => format!("{}{}", own.replacen(' ', "t", 1), zone.to_ascii_lowercase()),
+                    };
+                    step!(Op::ForeignText { ty, text });
                 }
             } else if rng.chance(1, 16) {
                 let n = 1 + rng.usize_below(5);
@@ -1383,7 +1416,7 @@ fn replay(path: &str, expect_class: Option<&str>) -> i32 {
         }
     };
     if v["kind"].as_str() == Some("miri") {
-        return miri::replay(&v, path);
+        return simcore::miri::replay(PROPERTY, "c15", "c15_threads", &v, path);
     }
     let script = match script_from_json(&v["script"]) {
         Ok(s) => s,
@@ -1408,104 +1441,6 @@ fn replay(path: &str, expect_class: Option<&str>) -> i32 {
         None => {
             println!("no violation on this tree");
             EXIT_OK
-        }
-    }
-}
-
-mod miri {
-    //! Scenario B: concurrent first use of the shared static formatters, run
-    //! under Miri's seeded scheduler (real std::thread + once_cell code).
-    use super::*;
-    use std::process::Command;
-
-    pub struct MiriResult {
-        pub seeds_run: u64,
-        pub failure: Option<(u64, String, String)>, // (miri seed, preemption rate, output tail)
-        pub wall_s: f64,
-        pub skipped: Option<String>,
-    }
-
-    fn miri_cmd(seed_lo: u64, seed_hi: u64, rate: &str, workload: u64) -> Command {
-        let sim = simcore::verif_root().join("sim");
-        let mut c = Command::new("cargo");
-        c.current_dir(&sim)
-            .arg("+nightly")
-            .arg("miri")
-            .arg("run")
-            .arg("--offline")
-            .arg("-q")
-            .arg("-p")
-            .arg("c15")
-            .arg("--bin")
-            .arg("c15_threads")
-            .arg("--")
-            .arg(workload.to_string())
-            .env(
-                "MIRIFLAGS",
-                format!("-Zmiri-many-seeds={}..{} -Zmiri-preemption-rate={} -Zmiri-disable-isolation", seed_lo, seed_hi, rate),
-            )
-            .env("CARGO_NET_OFFLINE", "true")
-            .env("CARGO_TARGET_DIR", sim.join("target").join("miri-c15"));
-        c
-    }
-
-    pub fn run(seeds: u64, rates: &[&str], workload: u64) -> MiriResult {
-        let t0 = simcore::real_monotonic_s();
-        let mut total = 0;
-        for rate in rates {
-            let out = miri_cmd(0, seeds, rate, workload).output();
-            let out = match out {
-                Ok(o) => o,
-                Err(e) => {
-                    return MiriResult { seeds_run: total, failure: None, wall_s: simcore::real_monotonic_s() - t0, skipped: Some(format!("cannot start cargo miri: {e}")) }
-                }
-            };
-            let text = format!("{}{}", String::from_utf8_lossy(&out.stdout), String::from_utf8_lossy(&out.stderr));
-            if out.status.success() {
-                total += seeds;
-                continue;
-            }
-            if text.contains("error: could not compile") || text.contains("no such command") || text.contains("is not installed") {
-                return MiriResult { seeds_run: total, failure: None, wall_s: simcore::real_monotonic_s() - t0, skipped: Some(format!("miri build failed: {}", tail(&text, 1200))) };
-            }
-            // find the failing seed: many-seeds prints "Trying seed: N" or similar; bisect by single seeds
-            for s in 0..seeds {
-                let o = miri_cmd(s, s + 1, rate, workload).output();
-                if let Ok(o) = o {
-                    if !o.status.success() {
-                        let t = format!("{}{}", String::from_utf8_lossy(&o.stdout), String::from_utf8_lossy(&o.stderr));
-                        return MiriResult { seeds_run: total + s, failure: Some((s, rate.to_string(), tail(&t, 2500))), wall_s: simcore::real_monotonic_s() - t0, skipped: None };
-                    }
-                }
-            }
-            return MiriResult { seeds_run: total, failure: None, wall_s: simcore::real_monotonic_s() - t0, skipped: Some(format!("many-seeds run failed but no single seed reproduces: {}", tail(&text, 1200))) };
-        }
-        MiriResult { seeds_run: total, failure: None, wall_s: simcore::real_monotonic_s() - t0, skipped: None }
-    }
-
-    fn tail(s: &str, n: usize) -> String {
-        let chars: Vec<char> = s.chars().collect();
-        chars[chars.len().saturating_sub(n)..].iter().collect()
-    }
-
-    pub fn replay(v: &Value, path: &str) -> i32 {
-        let seed = v["miri_seed"].as_u64().unwrap_or(0);
-        let rate = v["preemption_rate"].as_str().unwrap_or("0.1").to_string();
-        let workload = v["workload_seed"].as_u64().unwrap_or(0);
-        match miri_cmd(seed, seed + 1, &rate, workload).output() {
-            Ok(o) if o.status.success() => {
-                println!("no violation on this tree");
-                EXIT_OK
-            }
-            Ok(o) => {
-                println!("{}", tail(&String::from_utf8_lossy(&o.stderr), 2000));
-                println!("VIOLATION property={} replay={}", PROPERTY, path);
-                EXIT_VIOLATION
-            }
-            Err(e) => {
-                eprintln!("harness error: {e}");
-                EXIT_HARNESS
-            }
         }
     }
 }
@@ -1737,7 +1672,7 @@ fn main() {
     let miri_res = if no_miri || !total.violations.is_empty() {
         None
     } else {
-        Some(miri::run(miri_seeds, &rates, seed))
+        Some(simcore::miri::run("c15", "c15_threads", miri_seeds, &rates, seed))
     };
     if let Some(m) = &miri_res {
         match (&m.failure, &m.skipped) {
